@@ -56,10 +56,10 @@ func (f *Frame) execLookup(in *ssa.Lookup, st *State) {
 			v := c.define("mv", Select(Select(hv, x[0]), kt))
 			z := zeroLeaves(vt)
 			val = []Term{c.define("mv", Ite(present, v, z[0]))}
-			st.assume(c, typeInv(vt, val))
+			c.assumeFact(st, typeInv(vt, val))
 		} else {
 			val = c.freshLeaves("mapval", vt)
-			st.assume(c, typeInv(vt, val))
+			c.assumeFact(st, typeInv(vt, val))
 			z := zeroLeaves(vt)
 			var eqs []Term
 			for i := range val {
@@ -70,7 +70,7 @@ func (f *Frame) execLookup(in *ssa.Lookup, st *State) {
 	} else {
 		present = c.fresh("mappresent", SBool)
 		val = c.freshLeaves("mapval", vt)
-		st.assume(c, typeInv(vt, val))
+		c.assumeFact(st, typeInv(vt, val))
 	}
 	if in.CommaOk {
 		f.set(in, append(append([]Term{}, val...), present))
@@ -157,8 +157,8 @@ func (f *Frame) execNext(in *ssa.Next, st *State) {
 	vt := tup.At(2).Type()
 	key := c.freshLeaves("next_key", kt)
 	val := c.freshLeaves("next_val", vt)
-	st.assume(c, typeInv(kt, key))
-	st.assume(c, typeInv(vt, val))
+	c.assumeFact(st, typeInv(kt, key))
+	c.assumeFact(st, typeInv(vt, val))
 	if it != nil {
 		mt := it.typ
 		if k1, ok1 := f.mapKeyTerm(mt, key); ok1 && len(key) == 1 {
